@@ -263,6 +263,33 @@ struct Wm {
   BABYLON_COMPATIBLE((m, 1)(pm, 2)(x, 3))
   AGG { vis(m); vis(pm); vis(x); }
 };
+// boundary family: tags of width 1 / 2 / 3, payload lengths around the varint width boundaries
+struct BS {
+  std::string s1, s15, s16, s2047, s2048;
+  BABYLON_COMPATIBLE((s1, 1)(s15, 15)(s16, 16)(s2047, 2047)(s2048, 2048))
+  AGG { vis(s1); vis(s15); vis(s16); vis(s2047); vis(s2048); }
+};
+struct BN {
+  BS in;
+  int32_t x {0};
+  BABYLON_COMPATIBLE((in, 1)(x, 2))
+  AGG { vis(in); vis(x); }
+};
+struct BM {
+  BS in;
+  std::vector<int32_t> v;
+  int32_t x {0};
+  BABYLON_COMPATIBLE((in, 2047)(v, 2048)(x, 15))
+  AGG { vis(in); vis(v); vis(x); }
+};
+struct BC {
+  std::vector<std::string> vs;
+  std::vector<St> va;
+  std::vector<int32_t> vi;
+  std::list<std::string> ls;
+  BABYLON_COMPATIBLE((vs, 1)(va, 2)(vi, 3)(ls, 16))
+  AGG { vis(vs); vis(va); vis(vi); vis(ls); }
+};
 struct H2 {
   std::vector<int32_t> v;
   H1 m;
@@ -599,7 +626,7 @@ static std::map<std::string, Runner> runners() {
   return {{"TI32", run_case<int32_t>}, {"TStr", run_case<std::string>}, {"TVecI", run_case<std::vector<int32_t>>},
           {"TPtrS", run_case<std::unique_ptr<std::string>>}, {"Sc", run_case<Sc>}, {"St", run_case<St>}, {"Co", run_case<Co>},
           {"Pt", run_case<Pt>}, {"De", run_case<De>}, {"Re", run_case<Re>}, {"Ca", run_case<Ca>}, {"CaN", run_case<CaN>},
-          {"PV", run_case<PV>}, {"Cp", run_case<Cp>}, {"Wm", run_case<Wm>}, {"H1", run_case<H1>}, {"H2", run_case<H2>},
+          {"PV", run_case<PV>}, {"Cp", run_case<Cp>}, {"Wm", run_case<Wm>}, {"BS", run_case<BS>}, {"BN", run_case<BN>}, {"BSL", run_case<BS>}, {"BNL", run_case<BN>}, {"BM", run_case<BM>}, {"BC", run_case<BC>}, {"H1", run_case<H1>}, {"H2", run_case<H2>},
           {"H3", run_case<H3>}, {"H4", run_case<H4>}, {"H5", run_case<H5>}};
 }
 
